@@ -47,12 +47,18 @@ struct BmpStream : Family {
 		uint64_t w = r.chance(1, 10) ? 0 : r.below(thorough ? 200 : 70);
 		int64_t h = static_cast<int64_t>(r.below(thorough ? 40 : 14));
 		if (r.chance(1, thorough ? 60 : 150)) {
-			// pixel data larger than the library's 128 KiB stream-copy chunk, with padded rows of a pitch that does not divide it
-			static const uint64_t BW[][2] = {{1001, 8}, {363, 8}, {2001, 4}, {9001, 1}, {1025, 8}, {641, 8}};
-			size_t k = r.below(6);
+			// pixel data larger than the buffers a streaming implementation may use (64 KiB .. 1 MiB): row counts on, next to and
+			// between the multiples of rows-per-block, with pitches that do and do not divide the block
+			static const uint64_t BW[][2] = {{1001, 8}, {363, 8}, {2001, 4}, {9001, 1}, {1025, 8}, {641, 8}, {1024, 8}, {1000, 8}, {10, 8}, {4096, 8}, {512, 4}, {33, 1}};
+			size_t k = r.below(12);
 			w = BW[k][0]; bits = static_cast<int>(BW[k][1]);
 			uint64_t pitch = ((w * static_cast<uint64_t>(bits) + 7) / 8 + 3) & ~3ull;
-			h = static_cast<int64_t>(131072 / pitch + 3 + r.below(40));
+			static const uint64_t BLK[] = {65536, 131072, 131072, 262144, 1048576, 1048576};
+			uint64_t rowsPerBlock = BLK[r.below(6)] / pitch, j = r.range(1, 3);
+			uint64_t rows = rowsPerBlock * j;
+			switch (r.below(5)) { case 0: rows += 1; break; case 1: if (rows > 1) rows -= 1; break; case 2: rows += 3 + r.below(40); break; default: break; }
+			while (rows * pitch > (3u << 20) || rows > 130000) rows -= rowsPerBlock ? rowsPerBlock : 1;
+			h = static_cast<int64_t>(rows);
 		}
 		if (r.chance(1, 2)) h = -h;
 		uint64_t used = r.chance(1, 2) ? 0 : r.range(1, 1ull << bits);
@@ -201,7 +207,14 @@ struct TilesetStream : Family {
 		p.setenv("backend", BK[r.below(4)]);
 		p.setenv("wbackend", r.chance(1, 2) ? "dyn" : r.chance(1, 2) ? "file" : "sim");
 		Line t = mkline("world", "tileset");
-		t.set("seed", hex64(r.next())).set("tiles", r.chance(1, 8) ? 0 : r.below(thorough ? 9 : 5)).set("bottomup", r.below(2)).set("rowpool", r.chance(1, 3) ? 1 + r.below(3) : 0);
+		uint64_t tiles = r.chance(1, 8) ? 0 : r.below(thorough ? 9 : 5);
+		if (r.chance(1, thorough ? 100 : 200)) {
+			// giant pictures: pixel sections on and next to multiples of 128 KiB .. 1 MiB (4096 .. 32768 rows of 32 bytes)
+			static const uint64_t BLKROWS[] = {4096, 8192, 32768, 32768};
+			tiles = BLKROWS[r.below(4)] / 32 * r.range(1, 2);
+			switch (r.below(4)) { case 0: tiles += 1; break; case 1: tiles -= 1; break; default: break; }
+		}
+		t.set("seed", hex64(r.next())).set("tiles", tiles).set("bottomup", r.below(2)).set("rowpool", r.chance(1, 3) ? 1 + r.below(3) : 0);
 		p.world.push_back(t);
 		size_t nops = static_cast<size_t>(r.range(3, 12));
 		static const char* SIG[] = {"PBMP", "BM", "PBMp", "pBMP", "PBM", "PBMPX", "head", "rnd"};
